@@ -29,6 +29,8 @@ META = {
 
 META['explanation'] += ' ' + 'R9: explicit rejections against the reviewed table. R10: certificate validity bounds through the shared timestamp primitives. Spec items of the messages name the attribute they carry (consistent swaps on both sides are findings).'
 META['explanation'] += ' ' + "R11: the curve parameter of EdDSA keys per algorithm name (RFC 8709), by evaluation. R12: the SEC1 point of ECDSA keys evaluated for coordinates with leading zero octets, with the dependency's octet_bit_string modelled as asn1crypto's from_coords. The name-list table holds lists with an empty name in every position (must be refused)."
+
+META['explanation'] += ' ' + 'R13: what the composer hands to a primitive is the stored attribute, never a constant in its place. R14: algorithm names of the name-lists are matched exactly (shared with C10.R10).'
 MODULES = {'cryptoparser.ssh.record', 'cryptoparser.ssh.subprotocol', 'cryptoparser.ssh.key'}
 HERE = os.path.dirname(os.path.dirname(os.path.abspath(__file__)))
 
